@@ -32,18 +32,36 @@ Ltac wf_tac :=
           repeat (destruct Hx as [<-|Hx]; [repeat (destruct Hy as [<-|Hy]; [first [reflexivity|intros E; vm_compute in E; discriminate]|]); destruct Hy|]);
           destruct Hx|];
   intros x Hx; cbn in Hx;
-  repeat (destruct Hx as [<-|Hx]; [split; [reflexivity|vm_compute; discriminate]|]); destruct Hx.
+  repeat (destruct Hx as [<-|Hx]; [reflexivity|]); destruct Hx.
 
-Lemma regress1_ok : wf_headers 0 (all_headers regress1) /\
+Lemma regress1_ok : wf_headers (all_headers regress1) /\
   exists tr, run 0 regress1 = (tr, Done) /\ map s_chain tr = [[]; [9; 7; 6]].
 Proof. split; [wf_tac|]. eexists. split; vm_compute; reflexivity. Qed.
-Lemma regress2_ok : wf_headers 0 (all_headers regress2) /\
+Lemma regress2_ok : wf_headers (all_headers regress2) /\
   exists tr, run 0 regress2 = (tr, Done) /\ map s_chain tr = [[1; 2; 3]; [1; 2; 3]; [1; 2; 3]; [1; 2; 3; 4]].
 Proof. split; [wf_tac|]. eexists. split; vm_compute; reflexivity. Qed.
-Lemma regress3_ok : wf_headers 0 (all_headers regress3) /\
+Lemma regress3_ok : wf_headers (all_headers regress3) /\
   exists tr, run 0 regress3 = (tr, Done) /\ map s_chain tr = [[1; 2]; [1; 2; 3]; [1; 2; 3]; [1; 2; 3]].
 Proof. split; [wf_tac|]. eexists. split; vm_compute; reflexivity. Qed.
-Lemma clean_example_ok : wf_headers 0 (all_headers clean_example) /\
+Lemma clean_example_ok : wf_headers (all_headers clean_example) /\
   exists tr, run 0 clean_example = (tr, Done) /\
     map s_chain tr = [[]; [9; 7; 6]; [9; 7; 6]; [9; 7; 6]; [9; 7; 6; 13]].
 Proof. split; [wf_tac|]. eexists. split; vm_compute; reflexivity. Qed.
+
+(* a BlockChain anchored at the checkpoint block 2 (hash given to the constructor only); peers deliver the
+   checkpoint header itself, its parent's header, and its descendants, in overlapping batches *)
+Definition checkpoint_example : list event :=
+  [Deliver [H 2 1; H 3 2] [3; 2] []; Deliver [H 1 0; H 2 1; H 4 3; H 11 2] [2; 11; 1; 4] []; Deliver [H 2 1] [] []].
+Lemma checkpoint_example_ok : wf_headers (all_headers checkpoint_example) /\
+  exists tr, run 2 checkpoint_example = (tr, Done) /\ map s_chain tr = [[3]; [3; 4]; [3; 4]].
+Proof. split; [wf_tac|]. eexists. split; vm_compute; reflexivity. Qed.
+
+(* preload_locked_blocks [1<-0; 2<-1], then the block at the lock point, a preloaded block and new blocks arrive *)
+Definition preload_example_pre : list header := [H 1 0; H 2 1].
+Definition preload_example : list event :=
+  [Deliver [H 2 1; H 3 2] [3; 2] []; Deliver [H 1 0; H 4 3] [] []; Lock 3 [] []; Deliver [H 3 2] [] []].
+Lemma preload_example_ok : wf_headers (preload_example_pre ++ all_headers preload_example) /\
+  chain_headers 0 preload_example_pre /\
+  exists tr, run_pre 0 preload_example_pre preload_example = (tr, Done) /\
+    map s_chain tr = [[1; 2; 3]; [1; 2; 3; 4]; [1; 2; 3; 4]; [1; 2; 3; 4]] /\ map s_locked tr = [2; 2; 3; 3]%nat.
+Proof. split; [wf_tac|]. split; [cbn; auto|]. eexists. split; [|split]; vm_compute; reflexivity. Qed.
